@@ -27,14 +27,14 @@ def run(ctx):
     LK.k5_cache_invalidation(ctx)
     LK.k18_tree_searcher_purity(ctx)
     R.r6_queue_order_survives(ctx)
-    R.r7_optional_numbers_tested_for_none(ctx, (("CombinatorialSpecificationSearcher", "_auto_search_rules"), ("CombinatorialSpecificationSearcher", "_expand_classes_for")))
+    R.r7_optional_numbers_tested_for_none(ctx, (("CombinatorialSpecificationSearcher", "_auto_search_rules", ("max_expansion_time",)),))
     # comparing a restored searcher with the original reads every stored rule back; the memory-saving
     # flavour does so by replaying the pack
     from ..engines import provenance as PV
     PV.a5_application_discipline(ctx, only={"RecomputingDict.__getitem__"})
     ctx.floor("A5", 2)
     ctx.floor("R6", 1)
-    ctx.floor("R7", 2)
+    ctx.floor("R7", 1)
     ctx.floor("K5", 6)
     ctx.floor("K18", 6)
     ctx.floor("K6", 2)
